@@ -1,7 +1,7 @@
 (* Regenerated obligations for C16 (batches: one goroutine per operation, each result stored under its own index; the model Gw/Http.v was written from these skeletons). *)
 From Coq Require Import String.
 From Gen Require Import Skeletons.
-From GW Require Import Verified.
+From GW Require Import Verified VerifiedBodies.
 
 Lemma http_GraphQLHandler_skeleton : gen_http_GraphQLHandler = verified_http_GraphQLHandler.
 Proof. reflexivity. Qed.
@@ -10,4 +10,14 @@ Lemma http_setResultFunc_skeleton : gen_http_setResultFunc = verified_http_setRe
 Proof. reflexivity. Qed.
 
 Lemma http_executeRequest_skeleton : gen_http_executeRequest = verified_http_executeRequest.
+Proof. reflexivity. Qed.
+
+(* bodies with their conditions (VerifiedBodies.v) *)
+Lemma http_GraphQLHandler_cond_body : gen_http_GraphQLHandler_cond = verified_http_GraphQLHandler_cond.
+Proof. reflexivity. Qed.
+
+Lemma http_executeRequest_cond_body : gen_http_executeRequest_cond = verified_http_executeRequest_cond.
+Proof. reflexivity. Qed.
+
+Lemma http_parseOperations_body : gen_http_parseOperations = verified_http_parseOperations.
 Proof. reflexivity. Qed.
